@@ -276,6 +276,22 @@ def file_save_faults(ctx, n):
                     ctx.count('file_saves_failed_by_a_storage_fault')
                 finally:
                     os.rename, os.replace = orig
+            if saved and i % 2 == 0:
+                # the process is interrupted (Ctrl-C, a kill) while a recording that is already stored is saved again: an interrupt-style
+                # exception, not an error the save can clean up after, arrives at the point where a file would be moved into place
+                from vlib.values import InterruptLike
+                orig = (os.rename, os.replace, os.link)
+
+                def interrupted(*a, **kw):
+                    raise InterruptLike('the process is interrupted here (injected)')
+                os.rename = os.replace = os.link = interrupted
+                try:
+                    c.save_recording(_again(saved[i % len(saved)], 99))
+                except InterruptLike:
+                    ctx.count('file_resaves_interrupted')
+                finally:
+                    os.rename, os.replace, os.link = orig
+                ctx.count('file_resaves_with_an_interrupt_armed')
             ctx.case(('file_save_faults', i, len(saved), len(failed)))
             ctx.count('file_save_fault_histories')
             reader = box.reader()
